@@ -95,6 +95,21 @@ files = {
     "en m 3", "en m -4", "en m -5",
     "mnew mm h0 h0", log("mm", 0, "same child twice"),
  ],
+ "log.sentinel.ops": [
+    "# a child that returns one long-lived *errs.Error: Handle's aggregate must be built beside it, never into it;",
+    "# later records report only their own failures (defect shape: first failure kept as-is, later ones appended to it)",
+    "reset", "new h0 1 0 0", "new h1 2 0 0", "new h2 3 0 0", "mnew m h0 h1 h2",
+    "mode 1 fails", log("m", 8, "only the sentinel child fails"),
+    "mode 2 fail", log("m", 8, "sentinel child first, a plain failure second"),
+    "mode 2 ok", log("m", 8, "again only the sentinel child"),
+    "mode 2 faile", "mode 3 panic", log("m", 8, "sentinel, fresh errs.Error, panic"),
+    "mode 2 ok", "mode 3 ok", log("m", 8, "again only the sentinel child"),
+    "mode 3 fails", log("m", 8, "two sentinel children"), log("m", 8, "two sentinel children once more"),
+    "mode 1 ok", log("m", 8, "the other sentinel alone"),
+    "mode 1 fails", "mode 3 ok", log("h0", 8, "direct: the sentinel itself is returned"),
+    "mnew mm h0 h0", log("mm", 8, "the same sentinel twice in one record"), log("mm", 8, "and again"),
+    "mode 1 faile", log("h0", 8, "direct: fresh errs.Error"), log("m", 8, "fresh errs.Error alone"),
+ ],
  "log.buffered.ops": [
     "# buffered mode: FIFO, drops only when full, never blocks on a stalled sink, sink errors ignored",
     "reset", "new h0 1 0 1", "new h1 2 0 3",
